@@ -34,6 +34,22 @@ def main():
     if r.returncode:
         print("patch failed", r.stderr)
         return 3
+    # the sub-agents' worktrees are based on b79697b; repository fixes made since then are carried over textually
+    # (the same two pattern strings, wherever the change moved them) so that the base defect they repair is not
+    # reported against the benign change
+    carried = 0
+    for dirpath, dirs, files in os.walk(os.path.join(wt, "ctparse")):
+        for fn in files:
+            if fn.endswith(".py"):
+                fp = os.path.join(dirpath, fn)
+                src = open(fp, encoding="utf-8").read()
+                new = src.replace('_rule_named_number = r"({})\\s*".format(', '_rule_named_number = r"\\b({})\\s*".format(')
+                new = new.replace('@rule(r"(hal[fb]e?|1/2)(\\s+an?)?\\s*"', '@rule(r"\\b(hal[fb]e?|1/2)(\\s+an?)?\\s*"')
+                new = new.replace('_rule_named_number = rf"({_rule_named_number})\\s*"', '_rule_named_number = rf"\\b({_rule_named_number})\\s*"')
+                if new != src:
+                    open(fp, "w", encoding="utf-8").write(new)
+                    carried += src.count('_rule_named_number = r"({})\\s*".format(') + src.count('@rule(r"(hal[fb]e?|1/2)(\\s+an?)?\\s*"') + src.count('_rule_named_number = rf"({_rule_named_number})\\s*"')
+    print("base fix 47e75a7 carried over at {} of 2 places".format(carried))
     env = dict(os.environ, PYTHONPATH=wt)
     t = sh("/venv/bin/python -m pytest -q -p no:cacheprovider --timeout=900 2>&1 | tail -1", cwd=wt, env=env).stdout.strip()
     print("tests:", t)
@@ -62,7 +78,7 @@ def main():
     os.makedirs(d, exist_ok=True)
     shutil.copy(patch, os.path.join(d, "patch.diff"))
     meta = json.load(open(os.path.join(wt, "seed", "meta%s.json" % k)))
-    meta.update({"pytest_with_change": t, "checks_run": res,
+    meta.update({"pytest_with_change": t, "checks_run": res, "base_fix_47e75a7_places_carried_over": carried,
                  "alarms": sorted(i for i, v in res.items() if v["exit"] == 1),
                  "harness_errors": sorted(i for i, v in res.items() if v["exit"] == 2)})
     json.dump(meta, open(os.path.join(d, "meta.json"), "w"), indent=1, ensure_ascii=False)
